@@ -384,13 +384,36 @@ def _token_corruption(kind, column_kind, pool, expect='raise'):
         if not js:
             return None
         j = rng.choice(js)
-        tok = rng.choice(pool) if not callable(pool) else pool(rng)
-        if tok == '':
-            return None
         old = m.lines[li].tokens[j]
+        if not callable(pool):
+            tok = rng.choice(pool)
+        elif getattr(pool, 'wants_old', False):
+            tok = pool(rng, old)
+        else:
+            tok = pool(rng)
+        if tok == '' or tok is None:
+            return None
         if tok == old:
             return None
         m.lines[li].tokens[j] = tok
+        if getattr(pool, 'wants_old', False):
+            try:
+                VALUE_FN[column_kind](tok)
+            except Malformed:
+                pass
+            else:
+                return None          # the damage left a token that a strict reader still accepts: not a corruption
+            # spellings that Python's own int()/float() accept (sign, digit separators, 'e' exponents, inf/nan) are a
+            # reader's legitimate latitude, not corruption the property speaks of
+            try:
+                if column_kind == 'utim':
+                    int(tok)
+                    return None
+                if column_kind == 'float':
+                    float(tok)
+                    return None
+            except ValueError:
+                pass
         return Corruption(kind, m, expect, 'row', k, k == 0,
                           {'token': tok, 'was': old, 'column': cols[j].name, 'column_kind': column_kind, 'column_index': j})
     return fn
@@ -613,6 +636,22 @@ def _other_number(rng):
     return random_number_token(rng)
 
 
+def _damage_valid_token(rng, old):
+    """Damage a *valid* token so that a readable prefix (or suffix) survives: junk appended, prepended or inserted.
+    A reader that matches without anchoring, or that parses only the part it understands, accepts these."""
+    junk = rng.choice(['x', 'X', '-', '.', '.0', '_', '/', ':', ',', '+', 'e', 'Z9', '-1', '/11-50-17', '%', ')', '#'])
+    r = rng.random()
+    if r < 0.5:
+        return old + junk
+    if r < 0.65:
+        return junk + old
+    i = rng.randrange(1, max(2, len(old)))
+    return old[:i] + rng.choice(['x', '_', ' ', '..', '--', 'O', 'l']).strip() + old[i:] if r < 0.9 else old[:i] + old[i:] + old[-1] * 0 + junk
+
+
+_damage_valid_token.wants_old = True
+
+
 CORRUPTION_TABLE = [
     ('row-drop-column', _c_row_drop_column),
     ('row-add-column', _c_row_add_column),
@@ -636,6 +675,10 @@ CORRUPTION_TABLE = [
     ('decl-time-units', _c_decl_time_units),
     ('numeric-garbage', _token_corruption('numeric-garbage', 'float', NON_NUMERIC)),
     ('numeric-other', _token_corruption('numeric-other', 'float', _other_number, expect='model')),
+    ('numeric-damaged', _token_corruption('numeric-damaged', 'float', _damage_valid_token)),
+    ('date-damaged', _token_corruption('date-damaged', 'date', _damage_valid_token)),
+    ('time-damaged', _token_corruption('time-damaged', 'time', _damage_valid_token)),
+    ('utim-damaged', _token_corruption('utim-damaged', 'utim', _damage_valid_token)),
     ('date-malformed', _token_corruption('date-malformed', 'date', BAD_DATES)),
     ('date-out-of-range', _token_corruption('date-out-of-range', 'date', RANGE_DATES)),
     ('date-huge', _token_corruption('date-huge', 'date', HUGE_DATES)),
